@@ -176,7 +176,7 @@ func c02Malformed(c *mon.Ctx, A *signedTok, name string, pk crypto.PublicKey) {
 }
 
 func runC02(c *mon.Ctx) {
-	c.Rule("for each of ES256/384/512, EdDSA, PS256/384/512 with fresh keys x valid claims-sets of both profiles and a P2 extension, the token produced by the real ValidateAndSign is (1) accepted unmodified under the signer's key (positive control), then attacked - each mutant once through a fresh DecodeEvidenceFromCOSE and once through ONE REUSED Evidence object that has just decoded and verified the original token - with: every single-bit flip; every truncation; 1-8 trailing bytes; splices of protected/payload/signature between two tokens (same key/other payload, other key, other algorithm); signature := random bytes (same / other length), zeros, empty, signature of another message; 2-8 random byte substitutions, random insertions and deletions; algorithm moved to the unprotected header with a signature that is valid for that layout; empty protected header; protected header without label 1; nil payload with a signature valid over the empty payload; signature := well-formed DER ECDSA signatures (of nothing, of random integers, of another message); signature := the same integers in another octet form (a token is signed until r, s or the RSA integer starts with a zero octet, which is then dropped; zero octets prepended / appended); signature := the same octets rearranged (whole / each half reversed, halves swapped, complemented, bit-reversed, rotated, one half doubled); tokens re-signed by another key that bring their own 'proof' along in the unprotected header (self-issued certificate as x5chain / x5bag, key id) or carry a keyless hash-as-signature with the well-known TF-M short-circuit key id, verified under the signer's key, nil and an empty key list; B's payload under a protected header that additionally carries a well-formed crit parameter (three variants) with A's / random / constant signatures; a modified token decoded from a buffer that the caller then overwrites in place with the genuine token before Verify; the payload re-serialised into other bytes of the same meaning (tags in front, non-minimal / indefinite map head, other key order, extra unknown key, bstr-wrapped) with the original protected header and signature; the protected header re-serialised into other bytes of the same meaning (non-minimal label / value / map head, indefinite map, extra label, tag) with the original payload and signature; and verification under every other key (same algorithm, other curve/type, nil, non-key values) and under malformed key objects of the right Go type (empty / short / long Ed25519 key, zero-value and nil ECDSA / RSA keys; a panic below the library is counted, a nil error is a violation). Oracle: decode+Verify may only succeed if the independent reader finds payload, protected-header content and signature byte-identical to the signed token and the key is the signer's (NO-VERDICT, counted), or if the independent stdlib verifier itself finds the signature valid for that content and key; Verify must never succeed without protected alg / payload / signature. distinct_nontrivial = distinct (algorithm, profile, mutation class, position bucket) signatures")
+	c.Rule("for each of ES256/384/512, EdDSA, PS256/384/512 with fresh keys x valid claims-sets of both profiles and a P2 extension, the token produced by the real ValidateAndSign is (1) accepted unmodified under the signer's key (positive control), then attacked - each mutant once through a fresh DecodeEvidenceFromCOSE and once through ONE REUSED Evidence object that has just decoded and verified the original token - with: every single-bit flip; every truncation; 1-8 trailing bytes; splices of protected/payload/signature between two tokens (same key/other payload, other key, other algorithm); signature := random bytes (same / other length), zeros, empty, signature of another message; 2-8 random byte substitutions, random insertions and deletions; algorithm moved to the unprotected header with a signature that is valid for that layout; empty protected header; protected header without label 1; nil payload with a signature valid over the empty payload; signature := well-formed DER ECDSA signatures (of nothing, of random integers, of another message); signature := the same integers in another octet form (a token is signed until r, s or the RSA integer starts with a zero octet, which is then dropped; zero octets prepended / appended); signature := the same octets rearranged (whole / each half reversed, halves swapped, complemented, bit-reversed, rotated, one half doubled); tokens re-signed by another key that bring their own 'proof' along in the unprotected header (self-issued certificate as x5chain / x5bag, key id) or carry a keyless hash-as-signature with the well-known TF-M short-circuit key id, verified under the signer's key, nil and an empty key list; tokens with foreign payload / random signature / other key whose unprotected header is decorated with content type, key id, IV, CWT claims, countersignature slots or unknown labels (12 variants), and the same content-type parameter inside the protected header with the old signature; B's payload under a protected header that additionally carries a well-formed crit parameter (three variants) with A's / random / constant signatures; a modified token decoded from a buffer that the caller then overwrites in place with the genuine token before Verify; the payload re-serialised into other bytes of the same meaning (tags in front, non-minimal / indefinite map head, other key order, extra unknown key, bstr-wrapped) with the original protected header and signature; the protected header re-serialised into other bytes of the same meaning (non-minimal label / value / map head, indefinite map, extra label, tag) with the original payload and signature; and verification under every other key (same algorithm, other curve/type, nil, non-key values) and under malformed key objects of the right Go type (empty / short / long Ed25519 key, zero-value and nil ECDSA / RSA keys; a panic below the library is counted, a nil error is a violation). Oracle: decode+Verify may only succeed if the independent reader finds payload, protected-header content and signature byte-identical to the signed token and the key is the signer's (NO-VERDICT, counted), or if the independent stdlib verifier itself finds the signature valid for that content and key; Verify must never succeed without protected alg / payload / signature. distinct_nontrivial = distinct (algorithm, profile, mutation class, position bucket) signatures")
 	if err := extprof.Register(extprof.ExtP2Name); err != nil {
 		c.Violation("harness/register", err.Error(), nil)
 		return
@@ -496,6 +496,38 @@ func runC02(c *mon.Ctx) {
 				}
 			}
 			c.Sig(base + "|crit-header")
+		}
+		// (5i) decorations of the UNPROTECTED header (not covered by the signature)
+		// and further protected parameters, on tokens whose payload / signature
+		// is not the signer's: content type, key ids, IVs, CWT claims, countersignature
+		// slots, unknown labels - nothing there can vouch for the content
+		{
+			ct := []*refcbor.Node{refcbor.Tstr("application/eat+cwt"), refcbor.Tstr("application/eat-cwt"), refcbor.U(61), refcbor.U(263), refcbor.Tstr("application/cwt")}
+			var hdrs []*refcbor.Node
+			for _, v := range ct {
+				hdrs = append(hdrs, refcbor.MapOf(refcbor.I(3), v))
+			}
+			hdrs = append(hdrs,
+				refcbor.MapOf(refcbor.I(4), refcbor.Bstr([]byte("key-1")), refcbor.I(3), ct[0]),
+				refcbor.MapOf(refcbor.I(5), refcbor.Bstr(g.Bytes(12))),
+				refcbor.MapOf(refcbor.I(15), refcbor.MapOf(refcbor.I(1), refcbor.Tstr("issuer"), refcbor.I(265), refcbor.Tstr(model.P2Name))),
+				refcbor.MapOf(refcbor.I(7), refcbor.Arr(refcbor.Bstr(nil), refcbor.MapOf(), refcbor.Bstr(g.Bytes(64)))),
+				refcbor.MapOf(refcbor.I(11), refcbor.Arr(refcbor.Bstr(nil), refcbor.MapOf(), refcbor.Bstr(g.Bytes(64)))),
+				refcbor.MapOf(refcbor.I(16), refcbor.Tstr("application/eat+cwt")),
+				refcbor.MapOf(refcbor.Tstr("verified"), refcbor.Bool(true), refcbor.I(-65537), refcbor.U(1)),
+			)
+			for hi, hd := range hdrs {
+				c02Judge(c, "unprotected-decoration:other-payload", A, sign1Bytes(A.env.ProtectedBS, hd, B.env.Payload, A.env.Signature), k.Pub, true, map[string]any{"header_variant": hi})
+				c02Judge(c, "unprotected-decoration:random-signature", A, sign1Bytes(A.env.ProtectedBS, hd, A.env.Payload, g.Bytes(len(A.env.Signature))), k.Pub, true, map[string]any{"header_variant": hi})
+				c02Judge(c, "unprotected-decoration:other-key", A, sign1Bytes(C.env.ProtectedBS, hd, C.env.Payload, C.env.Signature), k.Pub, true, map[string]any{"header_variant": hi})
+			}
+			// the same parameters INSIDE the protected header (then covered, so the
+			// old signature no longer fits)
+			for hi, v := range ct {
+				pb := refcbor.Encode(refcbor.MapOf(refcbor.I(1), refcbor.I(coseAlgID[alg]), refcbor.I(3), v))
+				c02Judge(c, "protected-decoration:original-signature", A, sign1Bytes(pb, nil, A.env.Payload, A.env.Signature), k.Pub, true, map[string]any{"header_variant": hi})
+			}
+			c.Sig(base + "|header-decorations")
 		}
 		// (5h) the caller's buffer is the caller's: a modified token is decoded from
 		// a buffer which is then overwritten, in place, with the genuine token
